@@ -171,6 +171,7 @@ class BFSResult(object):
         self.samples = []
         self.state_histories = []     # (history) of every distinct state, for nested checks
         self.state_checks = 0
+        self.refinements = []         # merges the soundness check refuted and undid
 
 
 def _sig(succ):
@@ -178,14 +179,16 @@ def _sig(succ):
 
 
 def bfs(harness, cfg, depth, collector, seed=0, merge_all=False, keep_states=False, result=None,
-        run_state_checks=False, merge_lookahead=1):
+        run_state_checks=False, merge_lookahead=1, start=()):
+    """start: a history whose end state is the root of this search (exploration from a non-initial state)"""
     global HARNESS
     HARNESS = harness
     res = result or BFSResult()
     rng = random.Random(seed)
-    w0, m0 = build(cfg, ())
-    seen = {w0.key(m0.key()): ()}
-    frontier = [()]
+    start = tuple(tuple(e) for e in start)
+    w0, m0 = build(cfg, start)
+    seen = {w0.key(m0.key()): start}
+    frontier = [start]
     pending_alt = {}      # key -> [alt histories] waiting for the representative's expansion
     alt_count = {}
     if keep_states:
@@ -211,29 +214,35 @@ def bfs(harness, cfg, depth, collector, seed=0, merge_all=False, keep_states=Fal
             for alt in pending_alt.pop(h, []):
                 alt_jobs.append((i, alt))
         alt_results = pmap(expand, [(cfg, a, False) for _, a in alt_jobs])
+        unsound = {}
         if merge_lookahead >= 2 and alt_jobs:
             # the one-step check cannot see a hidden field whose effect shows two events later
             reps = sorted(set(i for i, _ in alt_jobs))
             deep_rep = dict(zip(reps, pmap(expand_deep, [(cfg, frontier[i], False) for i in reps])))
             deep_alt = pmap(expand_deep, [(cfg, a, False) for _, a in alt_jobs])
-            for (i, alt), da in zip(alt_jobs, deep_alt):
+            for j, ((i, alt), da) in enumerate(zip(alt_jobs, deep_alt)):
                 if 'error' in da or 'error' in deep_rep[i]:
                     raise HarnessError(da.get('error') or deep_rep[i].get('error'))
                 if da['sig2'] != deep_rep[i]['sig2']:
                     diff = [(x, y) for x, y in zip(deep_rep[i]['sig2'], da['sig2']) if x != y][:1]
-                    raise HarnessError('ABSTRACTION-UNSOUND (two steps ahead): histories %r and %r share a canonical key but differ: %r'
-                                       % (frontier[i], alt, diff))
-        for (i, alt), ar in zip(alt_jobs, alt_results):
+                    unsound[j] = 'two steps ahead: %r' % (diff,)
+        # A merge that the check refutes is undone: the alternate history becomes a state of its own (the canonical key was too
+        # coarse for this tree - hidden state); exploration stays sound, the evidence counts the refinements.
+        refined = []
+        for j, ((i, alt), ar) in enumerate(zip(alt_jobs, alt_results)):
             if 'error' in ar:
                 raise HarnessError(ar['error'])
             res.merges_checked += 1
             if _sig(ar['succ']) != _sig(results[i]['succ']):
                 a, b = _sig(results[i]['succ']), _sig(ar['succ'])
                 diff = [(x, y) for x, y in zip(a, b) if x != y][:2]
-                raise HarnessError('ABSTRACTION-UNSOUND: histories %r and %r share a canonical key but differ: %r'
-                                   % (frontier[i], alt, diff or (len(a), len(b))))
+                unsound[j] = repr(diff or (len(a), len(b)))
+            if j in unsound:
+                res.refinements.append({'representative': list(frontier[i]), 'alternate': list(alt), 'difference': unsound[j][:400]})
+                seen[('refined', len(res.refinements), alt)] = alt
+                refined.append((alt, ar))
         nxt = []
-        for h, r in zip(frontier, results):
+        for h, r in list(zip(frontier, results)) + refined:
             if 'error' in r:
                 raise HarnessError(r['error'])
             for rec in r['succ']:
@@ -263,8 +272,8 @@ def bfs(harness, cfg, depth, collector, seed=0, merge_all=False, keep_states=Fal
                     if rep != hh and (merge_all or n < harness.merge_checks_per_key):
                         alt_count[k] = n + 1
                         pending_alt.setdefault(rep, []).append(hh)
-        res.per_level.append((d + 1, len(nxt), res.transitions))
-        res.max_depth = d + 1
+        res.per_level.append((len(start) + d + 1, len(nxt), res.transitions))
+        res.max_depth = max(res.max_depth, len(start) + d + 1)
         frontier = nxt
     else:
         if frontier:
